@@ -50,6 +50,11 @@ func open(ctx context.Context, ds datastore.Datastore) (*Store, error) {
 	if err != nil {
 		return nil, fmt.Errorf("continuing deletion: %w", err)
 	}
+	// DeleteAll writes its tombstone through the namespaced datastore, so an interrupted wipe has to
+	// be resumed there.
+	if err := maybeContinueDelete(ctx, cs.ds); err != nil {
+		return nil, fmt.Errorf("continuing deletion: %w", err)
+	}
 
 	latestInstance, err := cs.readInstanceNumber(ctx, certStoreLatestKey)
 	if errors.Is(err, datastore.ErrNotFound) {
